@@ -44,7 +44,8 @@ class Lithium(material.Fluid):
                     label="Lithium applyInputParams 2",
                 )
 
-        LI6_wt_frac = LI6_wt_frac or LI_wt_frac
+        if LI6_wt_frac is None:
+            LI6_wt_frac = LI_wt_frac
 
         enrich = getFloat(LI6_wt_frac)
         # allow 0.0 to pass in!
